@@ -7,6 +7,10 @@ mod crypto;
 mod live;
 mod monitors;
 mod outage;
+mod pexplore;
+mod plugin;
+mod pscen;
+mod pworld;
 mod report;
 mod rng;
 mod simnode;
@@ -72,6 +76,14 @@ fn main() {
         "tower" => {
             towerhist::run(seed, thorough, &mut rep);
             rep.finish("random tower histories (registrations, valid/garbled/multi-slot submissions and updates by several users on shared locators, signature mutations, blocks with disputes/penalties, same-block dispute+penalty, reorgs, walks past expiry and past 100 confirmations, scripted node verdicts); non-trivial = at least one accepted appointment and one non-empty block; distinct = distinct outcome shapes", false);
+        }
+        "plugin-explore" => {
+            pexplore::run(rest.first().map(|s| s.as_str()).unwrap_or("basic"));
+            return;
+        }
+        "plugin" => {
+            pscen::run(seed, thorough, &mut rep);
+            rep.finish("binary-level scenarios: the real watchtower-client process driven over its plugin protocol against 1-2 scripted fake towers (accept, connection refused, subscription error, other API error, non-JSON / wrong-shape / empty body, wrong signer, undecodable signature, held requests; register replies: extending, not extending, wrong signer, garbage, API error), with notifications (incl. duplicates), manual retries, abandons, SIGKILL + restart; a fixed corpus naming every path plus random event sequences; after each event the client is left to reach a stable state which is recorded and checked by monitors", false);
         }
         "client" => {
             client::run(seed, thorough, &mut rep);
